@@ -12,6 +12,10 @@ CONFIGS = [
     # receivers / producers cancelled or closed at every boundary
     ('cancel', dict(B, NRoots=1, MaxActs=3, RootOps=5, TaskOps=2,
                     Menu={'instant', 'open', 'do', 'cancel', 'raise', 'put', 'get', 'qclose'})),
+    # the OWNER of the read mutex (a volatile child waiting for an item) is closed forcefully when its block is left,
+    # while another receiver is queued behind it: the mutex must be handed on, the next item goes to that receiver
+    ('close_owner', dict(B, NRoots=2, MaxActs=3, RootOps=6, TaskOps=1, MaxScopes=1, _full=100000,
+                         Menu={'open', 'do', 'do_volatile', 'leave', 'instant', 'put', 'get'})),
 ]
 THOROUGH = CONFIGS + [
     ('until2', dict(B, NRoots=3, MaxActs=3, RootOps=3, TaskOps=0, MaxScopes=2,
@@ -31,6 +35,8 @@ def refinement(check):
     import time
     import tlc
     for label, consts in CONFIGS:
+        if label == 'close_owner' and check.tier == 'quick':
+            continue
         check.model_check('refine_' + label, 'USimRef', 'Spec', consts, ['QueueInv'],
                           properties=['QueueRefines1', 'QueueHead1', 'QueueOrder1', 'QueueClosed1', 'MutexRefines1'],
                           coverage=False)
